@@ -233,3 +233,52 @@ func HarnessRaceCoalesced() {
 	vReach("both-done")
 	vAssert(errA == nil && errB == nil, "c05.follower.no-answer")
 }
+
+// HarnessWaiterDisconnect: "a client that disconnects never changes what the others receive"
+// for a client that is only WAITING for somebody else's fetch.  A owns the fetch; while it is
+// in flight B joins and hangs up; then C arrives, still during A's fetch.  C is answered from
+// that one fetch (one origin contact), completely.
+func HarnessWaiterDisconnect() {
+	e := newEnv(symChoice(2), 1<<30)
+	h := hdr("Cache-Control", "max-age=60")
+	e.o.script = []originResp{{status: 200, header: h, body: []byte("BODY")}, {status: 200, header: h, body: []byte("BOD2")}}
+	reqA := newReq("GET", "o.test", "/w", "", nil)
+	reqB := newReq("GET", "o.test", "/w", "", nil).WithContext(vCancelledCtx())
+	reqC := newReq("GET", "o.test", "/w", "", nil)
+	key := cache.MakeFromRequest(reqA)
+	vClockFreeze(true)
+	var rc fetchResult
+	var errC error
+	cDone := false
+	// A's request has reached the origin (nothing is stored yet): B joins A's flight and hangs
+	// up; whatever that sets off runs; then C arrives, still during A's flight
+	e.o.onFetch = func(n int) {
+		if n != 0 {
+			return
+		}
+		vSingleflightMode(1)
+		go func() { e.p.fetch.dedupFetch(reqB, key, headers.ParseHeaderDirective(reqB.Header)) }()
+		vRunPending()
+		go func() {
+			rc, errC = e.p.fetch.dedupFetch(reqC, key, headers.ParseHeaderDirective(reqC.Header))
+			cDone = true
+		}()
+		vRunPending()
+		vReach("waiter-gone-then-newcomer")
+	}
+	vSingleflightShared(true)
+	vSingleflightMode(0)
+	ra, errA := e.p.fetch.dedupFetch(reqA, key, headers.ParseHeaderDirective(reqA.Header))
+	vRunPending() // the waiters pick up the result of the flight
+	vAssert(cDone, "c05.newcomer-never-answered")
+	vAssert(errA == nil && errC == nil, "c05.waiter-disconnect-fails-another-client")
+	if errA != nil || errC != nil {
+		return
+	}
+	da, _, _ := ra.getResponse()
+	ba, _ := drain(da)
+	dc, _, _ := rc.getResponse()
+	bc, _ := drain(dc)
+	vAssert(string(ba) == "BODY" && string(bc) == "BODY", "c05.coalesced-body-differs")
+	vAssert(len(e.o.seen) == 1, "c05.coalesced-fetch-hit-origin-more-than-once")
+}
